@@ -3,7 +3,7 @@ EXTENDS Quantise, TraceBase
 T_Empty == {}
 Verdict(r) == IF r.raised # "" THEN <<"raised">>
               ELSE IF ~(WellFormed(AbsEvents(r.in)) /\ NoOverlap(Notes(AbsEvents(r.in)))) THEN <<>>
-              ELSE Fails(QuantiseClauses(r.in, r.steps, r.out) \o << <<"views-agree", ViewsAgree(r.out, r.outRel)>> >>)
+              ELSE Fails(QuantiseClauses(r.in, r.steps, r.out) \o << <<"views-agree", SameContent(r.out, r.outRel)>> >>)
 TraceInit == /\ TraceStart /\ src = <<>> /\ steps = <<>> /\ pos = 1 /\ openAt = <<>> /\ lastEnd = <<>> /\ out = <<>>
              /\ phase = "done"
 TraceNext == HasLine /\ Advance /\ UNCHANGED vars
